@@ -56,6 +56,15 @@ fn counters_reset() {
     MAX_SINGLE.store(0, Ordering::Relaxed);
 }
 
+/// Runs `f` with allocation counting on: (result, peak live bytes, largest single request). Not re-entrant.
+pub fn measure<R>(f: impl FnOnce() -> R) -> (R, u64, u64) {
+    counters_reset();
+    ENABLED.store(true, Ordering::SeqCst);
+    let r = f();
+    ENABLED.store(false, Ordering::SeqCst);
+    (r, PEAK.load(Ordering::Relaxed), MAX_SINGLE.load(Ordering::Relaxed))
+}
+
 fn process_cpu_us() -> u64 {
     let mut ts = libc::timespec { tv_sec: 0, tv_nsec: 0 };
     unsafe { libc::clock_gettime(libc::CLOCK_PROCESS_CPUTIME_ID, &mut ts) };
